@@ -63,3 +63,22 @@ Fixpoint first_ack (evs : list iev) : option bytes :=
   | IAck k :: _ => Some k
   | ISeal :: rest => first_ack rest
   end.
+
+(** ** The per-tunnel wrapper around SessionKey (udp.Association, icmp.Session)
+
+    Encrypt/Decrypt of the wrapper: closed -> error; no key -> the input is
+    passed through unchanged (plaintext mode); otherwise SessionKey.  Close
+    marks the wrapper closed AND drops the key, so the order of the two tests
+    matters: [wrap_use_swapped] is the wrapper with the tests the other way
+    round (seeded change C01_r2_2). *)
+Record wrap := { w_closed : bool; w_has_key : bool }.
+
+Inductive wres := WErr | WPassThrough | WSessionKey.
+
+Definition wrap_use (w : wrap) : wres :=
+  if w_closed w then WErr else if negb (w_has_key w) then WPassThrough else WSessionKey.
+
+Definition wrap_use_swapped (w : wrap) : wres :=
+  if negb (w_has_key w) then WPassThrough else if w_closed w then WErr else WSessionKey.
+
+Definition wrap_close (w : wrap) : wrap := {| w_closed := true; w_has_key := false |}.
